@@ -114,9 +114,66 @@ func ruleC08Finish(cx *Ctx) {
 		fname := funcName(fn)
 		// the loader invocation = dynamic call of the `load`/`bulkLoad` parameter (#3)
 		var loadCall ssa.Instruction
-		loads := paramCalls(fn, 3)
+		loadIdx := 3
+		for i, q := range fn.Params {
+			if q == bparam(fn, 3) {
+				loadIdx = i
+			}
+		}
+		loads := paramCalls(fn, loadIdx)
 		if len(loads) == 1 {
 			loadCall = loads[0]
+		}
+		if name == "doBulkCall" && loadCall != nil {
+			// the loader is asked for exactly the keys of the records of this bulk: the key list is built here, from the
+			// bulk map - a list handed in by the caller can name keys whose records belong to somebody else
+			keysOK := false
+			if cc := callCommon(loadCall); cc != nil && len(cc.Args) == 2 {
+				keysOK = true
+				seen := map[ssa.Value]bool{}
+				var walk func(v ssa.Value, d int)
+				walk = func(v ssa.Value, d int) {
+					if seen[v] || d > 8 {
+						return
+					}
+					seen[v] = true
+					switch x := v.(type) {
+					case *ssa.Parameter:
+						keysOK = false
+					case *ssa.Phi:
+						for _, e := range x.Edges {
+							walk(e, d+1)
+						}
+					case *ssa.Call:
+						if isBuiltinCall(x, "append") && len(x.Call.Args) > 0 {
+							walk(x.Call.Args[0], d+1)
+						} else if g := calleeOf(x); g != nil && g.Pkg != nil && strings.HasPrefix(g.Pkg.Pkg.Path(), modPath) {
+							// a helper that builds the list: from the bulk map it is given
+							okArg := false
+							for _, a := range x.Call.Args {
+								if rootOf(a) == ssa.Value(bparam(fn, 2)) {
+									okArg = true
+								}
+							}
+							if !okArg {
+								keysOK = false
+							}
+						}
+					case *ssa.Slice:
+						walk(x.X, d+1)
+					case *ssa.UnOp:
+						if al, isAl := x.X.(*ssa.Alloc); isAl {
+							for _, r := range *al.Referrers() {
+								if st, isSt := r.(*ssa.Store); isSt && st.Addr == ssa.Value(al) {
+									walk(st.Val, d+1)
+								}
+							}
+						}
+					}
+				}
+				walk(cc.Args[1], 0)
+			}
+			cx.R.Check(keysOK, rule, fname, "loader keys", cx.P.where(loadCall), "the key list handed to the bulk loader is built by doBulkCall from the bulk map (the keys of the records it will finish), not handed in")
 		}
 		cx.R.Check(loadCall != nil, rule, fname, "single loader invocation", cx.P.Pos(fn.Pos()), fmt.Sprintf("the loader is invoked exactly once (%d call sites)", len(loads)))
 		var def *ssa.Defer
@@ -142,6 +199,7 @@ func ruleC08Finish(cx *Ctx) {
 			outer   []ssa.Instruction // the helper call in the closure, when host is a helper
 		}
 		var sites []fsite
+		var perRecord []ssa.Instruction // calls (in the closure) of a per-record finishing helper with a record of the ranged bulk map
 		finishP, mapP := ssa.Value(bparam(fn, 4)), ssa.Value(bparam(fn, 2))
 		// the callback may also be held by the group (a field set when the group is built) instead of being passed in
 		isFinish := func(v ssa.Value) bool {
@@ -198,6 +256,21 @@ func ruleC08Finish(cx *Ctx) {
 			allInstrs(h, func(x ssa.Instruction) {
 				hc := callCommon(x)
 				if hc != nil && !hc.IsInvoke() && hc.StaticCallee() == nil && rootOf(hc.Value) == ssa.Value(h.Params[fi]) {
+					// a per-record helper: it finishes the record it is given, and the closure calls it for the
+					// records of a range over the bulk map
+					if len(hc.Args) == 1 {
+						for ri, hp := range h.Params {
+							if hc.Args[0] == ssa.Value(hp) && ri < len(cc.Args) {
+								if ex, ok := cc.Args[ri].(*ssa.Extract); ok && ex.Index == 2 {
+									if nx, ok := ex.Tuple.(*ssa.Next); ok {
+										if rg, ok := nx.Iter.(*ssa.Range); ok && rootOf(rg.X) == mapP {
+											perRecord = append(perRecord, in)
+										}
+									}
+								}
+							}
+						}
+					}
 					sites = append(sites, fsite{x, h, mr, []ssa.Instruction{in}})
 				}
 			})
@@ -225,6 +298,11 @@ func ruleC08Finish(cx *Ctx) {
 							overMap = true
 						}
 					}
+				}
+			}
+			for _, pr := range perRecord {
+				if loopBlocks(cl)[pr.Block()] {
+					inLoop, overMap = true, true
 				}
 			}
 			cx.R.Check(inLoop && overMap, rule, fname, "finish every record", cx.P.where(def), "the finish callback runs in a range over the bulk map itself (all records, fake ones included; not via keys that the loader could have rewritten)")
